@@ -45,10 +45,11 @@ COMPONENTS = {
              "ad_afqmc.sampling.sampler.propagate_phaseless(_ad_norot)", "ad_afqmc.driver.afqmc", "jax / XLA CPU"],
     "stub": ["mpi4py.MPI -> SimComm/SimWorld", "wall clock", "stdout"],
 }
-REQUIRED_PROBES = {"quick": ["permuted_steps", "rebatched_steps", "restricted_vs_unrestricted_steps", "driver_pairs", "sampler_pairs", "perm_kind_steps", "multislater_pair_runs"],
+REQUIRED_PROBES = {"quick": ["permuted_steps", "rebatched_steps", "restricted_vs_unrestricted_steps", "driver_pairs", "sampler_pairs", "perm_kind_steps", "multislater_pair_runs", "independence_ops"],
                    "thorough": ["permuted_steps", "rebatched_steps", "restricted_vs_unrestricted_steps", "driver_pairs", "sampler_pairs", "tail_steps", "sr_ops"]}
 
 OPS = ["step", "step", "step", "tail", "qr", "sr", "measure", "permute", "rebatch"]
+PERM_OPS = OPS + ["independence", "independence"]
 
 
 def menu_entry(k):
@@ -95,7 +96,10 @@ def gen_cfg(seed, index, tier):
         ops = []
         nw = m["n_walkers"]
         for _ in range(rng.randint(8, 30) if m.get("trial_kind") != "multislater" else rng.randint(5, 12)):
-            o = rng.choice(OPS)
+            o = rng.choice(PERM_OPS if m["kind"] == "perm" else OPS)
+            if o == "independence":
+                ops.append(["independence", rng.randrange(nw), rng.choice([0.37, 1.9, 0.0])])
+                continue
             if o == "tail":
                 ops.append(["tail", rng.randrange(nw), rng.choice([3.0, 5.0, 8.0])])
             elif o == "permute":
@@ -482,6 +486,55 @@ def _exec_perm(cfg, ctx):
                     _bad(ctx, "lockstep.measurement_not_permutation_covariant" if perm != sorted(perm) else "lockstep.measurement_depends_on_batch_count",
                          f"wave_function.calc_* / {cfg['trial']}", cfg, op=k, quantity=nm, perm=perm, n_batch_copy=nb_p)
             rec.append(arr_hash(ox, fx, ex))
+            continue
+        elif name == "independence":
+            # replace ONE walker (matrix, weight, overlap) and apply the same operation to the original and
+            # the modified population: every other walker must come out bit-for-bit comparable
+            j, wj = op[1], op[2]
+            key, sub = jr.split(key)
+            f = jnp.array(np.array(jr.normal(sub, shape=(nw, nchol))))
+            rsn = np.random.RandomState((cfg["ham_seed"] + 7 * k) % (2**32 - 1))
+            p2 = lab.copy_pd(px)
+            if unres:
+                wl = [np.array(px["walkers"][0]), np.array(px["walkers"][1])]
+                for t_ in (0, 1):
+                    wl[t_][j] = wl[t_][(j + 1) % nw] + 0.3 * (rsn.normal(size=wl[t_][j].shape) + 1j * rsn.normal(size=wl[t_][j].shape))
+                p2["walkers"] = [jnp.array(wl[0]), jnp.array(wl[1])]
+            else:
+                wl = np.array(px["walkers"])
+                wl[j] = wl[(j + 1) % nw] + 0.3 * (rsn.normal(size=wl[j].shape) + 1j * rsn.normal(size=wl[j].shape))
+                p2["walkers"] = jnp.array(wl)
+            w2 = np.array(px["weights"])
+            w2[j] = wj
+            p2["weights"] = jnp.array(w2)
+            p2["overlaps"] = replay.public_calls(x.trial)[0](p2["walkers"], x.wave_data)
+            others = np.array([i for i in range(nw) if i != j])
+            live = np.asarray(px["weights"])[others] > 0
+            sel = others[live]
+            site_i = f"{type(x.plain).__name__} / {cfg['trial']} (independence of walkers)"
+
+            def same(a, b, what, opname):
+                if sel.size and not _close(np.asarray(a)[sel], np.asarray(b)[sel], 1e-11, 1e-13):
+                    _bad(ctx, "lockstep.walker_depends_on_another_walker", site_i, cfg, op=k, operation=opname, quantity=what, replaced_walker=j)
+                    return False
+                return True
+
+            o1 = x.plain.propagate(x.trial, x.ham_data, lab.copy_pd(px), f, x.wave_data)
+            o2 = x.plain.propagate(x.trial, x.ham_data, lab.copy_pd(p2), f, x.wave_data)
+            ok = same(o1["weights"], o2["weights"], "weights", "propagate") and same(o1["overlaps"], o2["overlaps"], "overlaps", "propagate")
+            for a, b in zip(walk_arrays(o1), walk_arrays(o2)):
+                ok = ok and same(a, b, "walkers", "propagate")
+            if unres and ok:
+                f1 = x.plain.propagate_free(x.trial, x.ham_data, lab.copy_pd(px), f, x.wave_data)
+                f2 = x.plain.propagate_free(x.trial, x.ham_data, lab.copy_pd(p2), f, x.wave_data)
+                ok = same(f1["norms"], f2["norms"], "norms", "propagate_free") and same(f1["overlaps"], f2["overlaps"], "overlaps", "propagate_free")
+                for a, b in zip(walk_arrays(f1), walk_arrays(f2)):
+                    ok = ok and same(a, b, "walkers", "propagate_free")
+            if ok:
+                m1, m2 = _measure(x, px), _measure(x, p2)
+                for nm, a, b in zip(("overlap", "force_bias", "energy"), m1, m2):
+                    same(a, b, nm, "measurement")
+            ctx.probe("independence_ops", 1)
             continue
         elif name == "permute":
             pp = _take(pp, np.array(op[1]), unres)
